@@ -231,16 +231,51 @@ func (f *Frame) inlineCall(callee *ssa.Function, args []Val, binds []Val, st *St
 
 // modset describes, per heap, the predicate of references that may be modified.
 type modEntry struct {
-	heap string
-	ref  string // reference term in the pre-state; "" = any reference
+	heap    string
+	ref     string // reference term in the pre-state; "" = any reference
+	binders string // "(n Str) ..." for quantified entries
+	cond    string
 }
 
 func (f *Frame) evalModifies(sp *FuncSpec, ctx *SpecCtx) []modEntry {
-	e := f.e
 	var out []modEntry
 	for _, cl := range sp.Modifies {
 		for _, n := range cl.Mods {
+			out = append(out, f.evalModEntry(n, ctx)...)
+		}
+	}
+	return out
+}
+
+func (f *Frame) evalModEntry(n *Node, ctx *SpecCtx) []modEntry {
+	e := f.e
+	var out []modEntry
+	{
+		{
 			switch n.Kind {
+			case "quant":
+				// forall x T :: cond ==> loc
+				vars := map[string]SV{}
+				var binders []string
+				for _, v := range n.Vars {
+					t := ctx.resolveType(v.Type)
+					name := e.fresh(v.Name + "!m")
+					vars[v.Name] = SV{T: name, Sort: e.sortOf(t), Ty: t}
+					binders = append(binders, fmt.Sprintf("(%s %s)", name, e.sortOf(t)))
+				}
+				c2 := ctx.with(vars)
+				c2.inQ = ctx.inQ + 1
+				body := n.Args[0]
+				cond := "true"
+				if body.Kind == "binop" && body.Op == "==>" {
+					cond = c2.eval(body.Args[0]).T
+					body = body.Args[1]
+				}
+				for _, m := range f.evalModEntry(body, c2) {
+					m.binders = strings.Join(binders, " ") + " " + m.binders
+					m.cond = and(cond, m.cond)
+					out = append(out, m)
+				}
 			case "field":
 				base := ctx.eval(n.Args[0])
 				pt, ok := base.Ty.Underlying().(*types.Pointer)
@@ -253,9 +288,9 @@ func (f *Frame) evalModifies(sp *FuncSpec, ctx *SpecCtx) []modEntry {
 					if st.Field(i).Name() == n.Name {
 						found = true
 						if base.LV != nil {
-							out = append(out, modEntry{base.LV.Heap, base.LV.Ref})
+							out = append(out, modEntry{heap: base.LV.Heap, ref: base.LV.Ref})
 						} else {
-							out = append(out, modEntry{e.fieldHeap(pt.Elem(), i), base.T})
+							out = append(out, modEntry{heap: e.fieldHeap(pt.Elem(), i), ref: base.T})
 						}
 					}
 				}
@@ -267,9 +302,9 @@ func (f *Frame) evalModifies(sp *FuncSpec, ctx *SpecCtx) []modEntry {
 				switch t := x.Ty.Underlying().(type) {
 				case *types.Map:
 					md, mv := e.mapHeaps(t)
-					out = append(out, modEntry{md, x.T}, modEntry{mv, x.T})
+					out = append(out, modEntry{heap: md, ref: x.T}, modEntry{heap: mv, ref: x.T})
 				case *types.Slice:
-					out = append(out, modEntry{e.arrHeap(t.Elem()), app("s_arr", x.T)})
+					out = append(out, modEntry{heap: e.arrHeap(t.Elem()), ref: app("s_arr", x.T)})
 				default:
 					fail("modifies: x[*] needs a map or slice")
 				}
@@ -281,21 +316,21 @@ func (f *Frame) evalModifies(sp *FuncSpec, ctx *SpecCtx) []modEntry {
 				pt := x.Ty.Underlying().(*types.Pointer)
 				if st, ok := isStruct(pt.Elem()); ok {
 					for i := 0; i < st.NumFields(); i++ {
-						out = append(out, modEntry{e.fieldHeap(pt.Elem(), i), x.T})
+						out = append(out, modEntry{heap: e.fieldHeap(pt.Elem(), i), ref: x.T})
 					}
 				} else {
-					out = append(out, modEntry{e.ptrHeap(pt.Elem()), x.T})
+					out = append(out, modEntry{heap: e.ptrHeap(pt.Elem()), ref: x.T})
 				}
 			case "call":
 				if n.Name == "heap" && len(n.Args) == 1 && n.Args[0].Kind == "str" {
 					// heap("name"): whole heap may change
-					out = append(out, modEntry{n.Args[0].Name, ""})
-					continue
+					out = append(out, modEntry{heap: n.Args[0].Name, ref: ""})
+					return out
 				}
 				fail("modifies: unsupported entry %s", n.Name)
 			case "ident":
 				if n.Name == "nothing" {
-					continue
+					return out
 				}
 				fail("modifies: unsupported entry %s", n.Name)
 			default:
@@ -320,7 +355,11 @@ func (f *Frame) frameFact(h string, mods []modEntry, before, after *State, alloc
 			if m.ref == "" {
 				return "true"
 			}
-			excl = append(excl, not(eq(r, m.ref)))
+			if strings.TrimSpace(m.binders) != "" {
+				excl = append(excl, fmt.Sprintf("(forall (%s) (not %s))", m.binders, and(m.cond, eq(r, m.ref))))
+			} else {
+				excl = append(excl, not(eq(r, m.ref)))
+			}
 		}
 	}
 	if len(excl) == 0 {
@@ -341,8 +380,16 @@ func (f *Frame) contractCall(b *ssa.BasicBlock, in *ssa.Call, callee *ssa.Functi
 		e.assume(implies(g, t))
 	}
 	mods := f.evalModifies(sp, pre)
+	if sp.MayPanic {
+		f.panics = append(f.panics, retInfo{guard: g, st: before.clone(), pos: posOf(in)})
+	}
 	// havoc
-	writes := e.mayWriteNames(callee)
+	var writes []string
+	if !sp.Assumed {
+		writes = e.mayWriteNames(callee)
+	} else {
+		e.note("assumed contract of " + funcFull(callee) + ": only the locations in its modifies clause change (its body is not verified against the contract)")
+	}
 	for _, m := range mods {
 		found := false
 		for _, h := range writes {
@@ -372,6 +419,26 @@ func (f *Frame) contractCall(b *ssa.BasicBlock, in *ssa.Call, callee *ssa.Functi
 		rvals = []Val{res}
 	default:
 		rvals = res.Tup
+	}
+	if sp.Pure {
+		pv := f.pureTerms(callee, args, before)
+		for i, rv := range rvals {
+			if pv[i].nilOnly {
+				e.assume(implies(g, eq(eq(app("i_tag", rv.T), "0"), pv[i].term)))
+			} else if pv[i].term != "" {
+				e.assume(implies(g, eq(rv.T, pv[i].term)))
+			}
+		}
+	}
+	for i, rv := range rvals {
+		switch rs.At(i).Type().Underlying().(type) {
+		case *types.Pointer, *types.Map:
+			e.assume(app("<", rv.T, st.alloc))
+		case *types.Slice:
+			e.assume(app("<", app("s_arr", rv.T), st.alloc))
+		case *types.Interface:
+			e.assume(app("<", app("i_val", rv.T), st.alloc))
+		}
 	}
 	post := f.ctxFor(callee, args, rvals, st, before, g)
 	for _, en := range sp.Ensures {
@@ -636,4 +703,76 @@ func (f *Frame) mutexHeld(lv *LVal) *LVal {
 	n.Path = append(append([]step{}, lv.Path...), step{structT: mt, field: 0})
 	n.T = st.Field(0).Type()
 	return &n
+}
+
+type pureTerm struct {
+	term    string
+	nilOnly bool
+}
+
+// pureTerms: the results of a function declared pure, as uninterpreted functions of its
+// arguments and of every heap it may read (determinism of Go code; assumed, listed in the evidence).
+func (f *Frame) pureTerms(callee *ssa.Function, args []Val, st *State) []pureTerm {
+	e := f.e
+	e.note("assumed: " + funcFull(callee) + " (declared pure) is deterministic: its non-reference results are functions of its arguments and of the heaps it may read")
+	keys := mayReadKeys(e.prog, callee)
+	if _, all := keys["*"]; all {
+		fail("pure function %s makes dynamic calls", callee)
+	}
+	var argSorts, argTerms []string
+	for i, p := range callee.Params {
+		if args[i].LV != nil {
+			fail("pure function %s called with interior pointer", callee)
+		}
+		argSorts = append(argSorts, e.sortOf(p.Type()))
+		argTerms = append(argTerms, args[i].T)
+	}
+	var ids []string
+	for id := range keys {
+		ids = append(ids, id)
+	}
+	sort.Strings(ids)
+	for _, id := range ids {
+		k := keys[id]
+		if k.kind == 'M' && mapReadsOnParams(e.prog, callee, k.t) {
+			// depends on this map type only through the contents of its map-typed parameters
+			md, mv := e.mapHeaps(k.t)
+			mt := k.t.Underlying().(*types.Map)
+			for i, p := range callee.Params {
+				if types.Identical(p.Type().Underlying(), k.t) {
+					argSorts = append(argSorts, "(Array "+e.sortOf(mt.Key())+" Bool)", "(Array "+e.sortOf(mt.Key())+" "+e.sortOf(mt.Elem())+")")
+					argTerms = append(argTerms, sel(st.H(md), args[i].T), sel(st.H(mv), args[i].T))
+				}
+			}
+			continue
+		}
+		for _, h := range e.keyNames(map[string]hkey{id: k}) {
+			argSorts = append(argSorts, e.heapSort[h])
+			argTerms = append(argTerms, st.H(h))
+		}
+	}
+	rs := callee.Signature.Results()
+	var out []pureTerm
+	for i := 0; i < rs.Len(); i++ {
+		srt := e.sortOf(rs.At(i).Type())
+		name := fmt.Sprintf("pure$%s$%d", sanitize(funcFull(callee)), i)
+		switch srt {
+		case "Str", "Bool":
+			e.declRaw(name, fmt.Sprintf("(declare-fun %s (%s) %s)", name, strings.Join(argSorts, " "), srt))
+			out = append(out, pureTerm{term: app(name, argTerms...)})
+		case "Int":
+			if isRefLike(rs.At(i).Type()) {
+				out = append(out, pureTerm{})
+			} else {
+				e.declRaw(name, fmt.Sprintf("(declare-fun %s (%s) %s)", name, strings.Join(argSorts, " "), srt))
+				out = append(out, pureTerm{term: app(name, argTerms...)})
+			}
+		case "Iface":
+			e.declRaw(name, fmt.Sprintf("(declare-fun %s (%s) Bool)", name, strings.Join(argSorts, " ")))
+			out = append(out, pureTerm{term: app(name, argTerms...), nilOnly: true})
+		default:
+			out = append(out, pureTerm{})
+		}
+	}
+	return out
 }
